@@ -174,15 +174,22 @@ def segments(hist):
 def execute(item):
     """Run one history on the real code -> trace for TLC + side information.  item = (hid, hist, fake)"""
     hid, hist, fake = item
+    t_start = time.time()
     forked = FORK_OK[0] and hid.startswith("f")   # "f..." ids: short histories without restart; all others get a new process image per segment
     ids, where, evs, info = {}, {}, [], {"errors": [], "phases": [], "forked": forked}
     kinds = {}
     narts = sum(1 for s in hist if s["op"] == "Construct")
     base = os.path.join(scratch(), "c17", hid)
+    seen_kind = {}
+    hist = [dict(s) for s in hist]
+    for s in hist:  # input image of the build: alternates per kind, so a history has builds with different and (from the third on) with identical inputs
+        if s["op"] == "Construct":
+            s["variant"] = seen_kind.get(s["kind"], 0) % 2
+            seen_kind[s["kind"]] = seen_kind.get(s["kind"], 0) + 1
     for si, seg in enumerate(segments(hist)):
         if si:
             evs.append({"ev": "Restart"})
-        res = (run_segment_fork if forked else run_segment)(seg, os.path.join(base, f"seg{si}"), fake)
+        res = (run_segment_fork if forked else run_segment)(seg, base, fake)  # one project directory for the whole history
         evs.append({"ev": "Import", "n": len(res["import_draws"])})
         drawn = {}  # value hex -> phase of its (first) draw in this interpreter
         for ph, _n, hx in res["import_draws"]:
@@ -212,6 +219,7 @@ def execute(item):
             else:
                 evs.append({"ev": "Export", "art": st["art"], "f": f, "skip": skip, "x": []})
     info["where"] = where
+    info["wall"] = round(time.time() - t_start, 2)
     info["kinds"] = {str(k): v for k, v in kinds.items()}
     return {"id": hid, "ev": evs}, info
 
@@ -233,11 +241,14 @@ def explain_draw(hx, drawn, kind, name):
             return ph
     if not any(raw):
         return "constant zero"
+    for d, ph in drawn.items():
+        if len(d) > len(hx) and hx in d and d.index(hx) % 2 == 0:
+            return f"{ph} (bytes {d.index(hx) // 2}..{d.index(hx) // 2 + len(raw)} of a {len(d) // 2}-byte draw)"
     return "not drawn through spsdk.crypto.rng in this interpreter"
 
 
 def phase_class(ph, st, rec):
-    if ph == "import":
+    if ph.startswith("import"):
         return "import"
     if ph.startswith("Construct#"):
         return "construct"
@@ -376,23 +387,28 @@ def canary(v):
     v.extra["canary"] = f"hand-written good trace accepted; {len(want)} single-field corruptions rejected at events {at}"
 
 
-def canary_e2e(v):
+def canary_e2e(v, healthy):
     """The whole chain (executor -> canonicalisation -> TLC) must notice a generator that repeats itself: the real OTFAD / BEE
-    constructors are run in an interpreter whose token_bytes is replaced by a constant / a generator with period 64."""
-    h1 = homogeneous(("OTFAD", "ctor", []), 2)
-    h2 = homogeneous(("BEE", "ctor", []), 40)
-    t1, i1 = execute(("e2e-const", h1, "const"))
-    t2, i2 = execute(("e2e-cycle", h2, "cycle:64"))
-    t3, i3 = execute(("e2e-cycle-short", homogeneous(("BEE", "ctor", []), 10), "cycle:64"))
-    for t, i in ((t1, i1), (t2, i2), (t3, i3)):
+    constructors are run in interpreters whose token_bytes is replaced by a constant / by a generator with period 64.
+    The canary is conclusive only if SPSDK draws through token_bytes as on the pinned tree (one call per value): on a tree whose
+    histories were rejected anyway it is recorded, not enforced."""
+    runs = [("e2e-const", homogeneous(("OTFAD", "ctor", []), 2), "const"), ("e2e-cycle", homogeneous(("BEE", "ctor", []), 40), "cycle:64"),
+            ("e2e-cycle-short", homogeneous(("BEE", "ctor", []), 10), "cycle:64")]
+    out = [execute(x) for x in runs]
+    for t, i in out:
         if t.get("failed"):
-            raise Machinery(f"end-to-end canary could not be executed: {i['errors'][0]['error']}\n{i['errors'][0]['tb']}")
-    rej, _ = tlc.tv("C17", "FreshTrace", [t1, t2, t3])
-    if "e2e-const" not in rej or "e2e-cycle" not in rej or "e2e-cycle-short" in rej:
+            if healthy:
+                raise Machinery(f"end-to-end canary could not be executed: {i['errors'][0]['error']}\n{i['errors'][0]['tb']}")
+            v.extra["canary_e2e"] = "not executable on this tree"
+            return
+    rej, _ = tlc.tv("C17", "FreshTrace", [t for t, _i in out])
+    ok = "e2e-const" in rej and "e2e-cycle" in rej and "e2e-cycle-short" not in rej
+    if not ok and healthy:
         raise Machinery(f"end-to-end canary failed: rejected {sorted(rej)} (constant and period-64 generators must be rejected, 10 BEE headers "
                         f"with a period-64 generator draw 40 distinct values and must be accepted)")
-    v.extra["canary_e2e"] = (f"real OTFAD key blobs with a constant token_bytes rejected at event {rej['e2e-const'][0] + 1}; 40 real BEE headers with a "
-                             f"period-64 token_bytes rejected at event {rej['e2e-cycle'][0] + 1} of {rej['e2e-cycle'][1]}; 10 headers (40 draws < 64) accepted")
+    v.extra["canary_e2e"] = ((f"real OTFAD key blobs with a constant token_bytes rejected at event {rej['e2e-const'][0] + 1}; 40 real BEE headers with a "
+                              f"period-64 token_bytes rejected at event {rej['e2e-cycle'][0] + 1} of {rej['e2e-cycle'][1]}; 10 headers (40 draws < 64) accepted")
+                             if ok else f"inconclusive on this tree (rejected: {sorted(rej)}); not enforced because histories were rejected")
 
 
 # ------------------------------------------------------------------------------------------------ histories
@@ -456,7 +472,7 @@ def run(tier):
     v = Verdict(PROP, tier)
     quick = tier == "quick"
     r = rng(PROP)
-    for p in [os.path.join(KEYS, "SBkek_PUF.txt"), os.path.join(HABKEYS, "SRK_hash.bin")]:
+    for p in [os.path.join(KEYS, "SBkek_PUF.txt"), os.path.join(HABKEYS, "SRK_1_2_3_4_table.bin")]:
         if not os.path.exists(p):
             raise Machinery(f"key material missing: {p}")
 
@@ -572,8 +588,6 @@ def run(tier):
         longs.append((mixed(menu_full, r, r.randrange(70, 131)), "long-mixed"))
     longs.sort(key=lambda x: -sum(cost.get(s["kind"], 0.01) for s in x[0] if s["op"] == "Construct"))
 
-    canary_e2e(v)
-
     # ---- execute on the real code, expensive histories first.  Long histories and histories with a restart: every interpreter segment is
     #      a new process image (exec); short histories without restart: a process forked from the harness, in which spsdk is not imported
     items, why = [], {}
@@ -596,9 +610,12 @@ def run(tier):
         traces.append(t)
     v.count(len(traces))
     v.extra["interpreters"] = {"forked_from_harness_without_spsdk": nfork, "new_process_image": sum(len(segments(h)) for _i, h, _f in items) - nfork}
-    say(f"[C17] executed ({v.timer.s()}s)")
+    slow = sorted(((i.get("wall", 0), hid) for hid, i in infos.items()), reverse=True)[:4]
+    v.extra["executor_cpu_note"] = {"sum_wall_s": round(sum(i.get("wall", 0) for i in infos.values()), 1), "slowest": slow}
+    say(f"[C17] executed ({v.timer.s()}s; sum of executor wall {v.extra['executor_cpu_note']['sum_wall_s']}s, slowest {slow})")
 
     decide(v, traces, infos, "all histories")
+    canary_e2e(v, healthy=not v.violations)
 
     # ---- bookkeeping for the evidence
     for t in traces:
